@@ -649,6 +649,7 @@ pub fn run_sequential(w: &Workload, order: &[(usize, usize)]) -> Result<Vec<Stri
     Ok(out)
 }
 
+#[cfg(feature = "arc")]
 pub fn run_concurrent(w: &Workload, strategy: Strategy, seed: u64) -> Outcome {
     sched::install_global_hook();
     let (list, map) = make_shared(w);
@@ -1089,6 +1090,7 @@ pub fn workload_from_json(v: &Value) -> Option<Workload> {
 // Minimisation
 
 /// Tries seeded schedules for a workload until one violates with the given class
+#[cfg(feature = "arc")]
 fn find_failing(
     w: &Workload,
     class: &str,
@@ -1108,6 +1110,7 @@ fn find_failing(
     None
 }
 
+#[cfg(feature = "arc")]
 pub fn shrink(
     w: &Workload,
     first: (Outcome, Violation),
@@ -1188,10 +1191,12 @@ pub fn features(w: &Workload) -> BTreeSet<String> {
     f
 }
 
+#[cfg(feature = "arc")]
 pub struct LockWorker {
     known: KnownFindings,
 }
 
+#[cfg(feature = "arc")]
 impl LockWorker {
     pub fn new(known: KnownFindings) -> Self {
         Self { known }
@@ -1224,6 +1229,7 @@ fn scenario_json(w: &Workload, o: &Outcome) -> Value {
     })
 }
 
+#[cfg(feature = "arc")]
 impl Worker for LockWorker {
     fn run(&mut self, run_seed: u64, index: u64) -> RunReport {
         let w = gen_workload(run_seed);
@@ -1317,6 +1323,7 @@ impl Worker for LockWorker {
     }
 }
 
+#[cfg(feature = "arc")]
 pub fn replay(doc: &Value) -> (Option<Violation>, u64) {
     let Some(w) = workload_from_json(&doc["scenario"]["workload"]) else {
         return (
@@ -1361,6 +1368,7 @@ pub fn replay(doc: &Value) -> (Option<Violation>, u64) {
 // Validation of the modelled waiting policy against the real lock (real blocking, watchdog).
 // This is a self-test of the simulator's stub, not a simulated run: it uses real sleeps.
 
+#[cfg(feature = "arc")]
 pub fn validate_policy() -> Result<Vec<String>, String> {
     use parking_lot::RwLock;
     use std::sync::atomic::{AtomicBool, Ordering};
@@ -1431,4 +1439,61 @@ pub fn validate_policy() -> Result<Vec<String>, String> {
         log.push("free lock admits reader and writer".to_string());
     }
     Ok(log)
+}
+
+// ---------------------------------------------------------------------------------------------
+// `seqsim`: the same generated container workloads executed SEQUENTIALLY (two fixed orders), in
+// both the rc and the arc build. Used by the rc/arc differential (C19, first sentence): the
+// observations must be identical in the two builds and equal to the sequential specification.
+
+pub struct SeqWorker;
+
+impl Worker for SeqWorker {
+    fn run(&mut self, run_seed: u64, index: u64) -> RunReport {
+        let w = gen_workload(run_seed);
+        let mut rep = RunReport::default();
+        if let Some(e) = self_check(&w) {
+            rep.harness_error = Some(e);
+            return rep;
+        }
+        // order 1: thread after thread; order 2: round robin
+        let mut o1 = vec![];
+        for (t, ops) in w.threads.iter().enumerate() {
+            for i in 0..ops.len() {
+                o1.push((t, i));
+            }
+        }
+        let mut o2 = vec![];
+        let maxlen = w.threads.iter().map(|t| t.len()).max().unwrap_or(0);
+        for i in 0..maxlen {
+            for (t, ops) in w.threads.iter().enumerate() {
+                if i < ops.len() {
+                    o2.push((t, i));
+                }
+            }
+        }
+        let mut d = Digest::new();
+        for order in [&o1, &o2] {
+            match run_sequential(&w, order) {
+                Ok(obs) => {
+                    for s in &obs {
+                        d.str(s);
+                    }
+                }
+                Err(e) => {
+                    rep.harness_error = Some(e);
+                    return rep;
+                }
+            }
+        }
+        rep.digest = d.0;
+        rep.executions = 2;
+        rep.sim_units = (o1.len() * 2) as u64;
+        rep.signature = Some(d.0);
+        rep.counters = vec![("container_operations", (o1.len() * 2) as u64)];
+        if index < 2 {
+            rep.sample = Some(json!({"run_seed": run_seed, "workload": workload_to_json(&w)}));
+        }
+        rep
+    }
 }
